@@ -935,4 +935,26 @@ func genSubFlowLoop(r *rng, thorough bool, emit func(FlowScenario)) {
 		sc.Steps = []Step{{Run: ip(3)}}
 		emit(sc)
 	}
+	// a sub-flow of two nodes that ENDS THROUGH AN EXPLICIT nil CONNECTION and is entered again by its parent: every entry starts
+	// at the sub-flow's start node (not where the last one ended)
+	for _, n := range []int{2, 3, 5} {
+		a, a2, b := leaf, leaf, leaf
+		sc := FlowScenario{Kind: "canceled", Ctx0: "live", LeafScripts: []LeafScript{}, BatchScripts: []BatchScript{}}
+		sc.Nodes = []NodeDef{{ID: 0, Leaf: &a}, {ID: 1, Leaf: &b},
+			{ID: 2, Flow: &FlowDef{Start: ip(0), Ops: []Conn{{Src: 0, Action: "next", Dst: ip(4)}, {Src: 4, Action: "again", Dst: nil}, {Src: 4, Action: "out", Dst: nil}}}},
+			{ID: 3, Flow: &FlowDef{Start: ip(2), Ops: []Conn{{Src: 2, Action: "again", Dst: ip(2)}, {Src: 2, Action: "out", Dst: ip(1)}}}},
+			{ID: 4, Leaf: &a2}}
+		t.next, t.errN = r.intn(30), 0
+		for v := 0; v < n; v++ {
+			sc.LeafScripts = append(sc.LeafScripts, t.leafScript(0, v, true, 1, 1, true, "=next"))
+			act := "=again"
+			if v == n-1 {
+				act = "=out"
+			}
+			sc.LeafScripts = append(sc.LeafScripts, t.leafScript(4, v, true, 1, 1, true, act))
+		}
+		sc.LeafScripts = append(sc.LeafScripts, t.leafScript(1, 0, true, 1, 1, true, "=done"))
+		sc.Steps = []Step{{Run: ip(3)}}
+		emit(sc)
+	}
 }
